@@ -64,9 +64,18 @@ package ledger
 //@ macro blockIdTrace(b) = trJustify(blkT7(b), b)
 //@ macro blockIdOf(b) = hash.DoubleSha256(trBytes(blockIdTrace(b)))
 
+// The failed-transaction map goes into the id through its error strings, in ascending key
+// order. Its KEYS - which transactions are marked failed - do not: the second assertion
+// names the write that would cover them and does not exist (an open finding, see
+// known_findings.json: covering the keys changes the id of every block that has failed
+// transactions, which is a format change and not a small repair).
 //@ func encodeFailedTxs
-//@   noverify
-//@   ensures appends_failed_txs: result == nil ==> bufTrace == upd(old(bufTrace), buf, trFailedTxs(sel(old(bufTrace), buf), block))
+//@   property C08
+//@   assumes appends_failed_txs: result == nil ==> bufTrace == upd(old(bufTrace), buf, trFailedTxs(sel(old(bufTrace), buf), block))
+//@   local txid string
+//@   local txErr string
+//@   at binary.Write#1 assert the_reason_of_each_failed_tx_is_hashed: ifacePtr($0) == buf && $2 == boxed(bytes(txErr)) && txErr == block.FailedTxs[txid]
+//@   at binary.Write#2 assert the_id_of_each_failed_tx_is_hashed_too: ifacePtr($0) == buf && $2 == boxed(bytes(txid))
 //@ func encodeJustify
 //@   property C08
 //@   requires buffer_is_not_the_block: buf != nil
